@@ -237,6 +237,10 @@ func C17() int {
 			if !judge(key, key, c17WrapperProg(ops)) {
 				ok = false
 			}
+			key = fmt.Sprintf("cell path=%q content=%q ctx=mixed", c.path, c.content)
+			if !judge(key, key, c17MixedProg(ops)) {
+				ok = false
+			}
 		}
 		res[i] = ok
 		if i%17 == 0 {
